@@ -2,6 +2,8 @@
 """Regenerates MANIFEST.json from the table below (kept next to the checks so the two cannot drift)."""
 import json
 CLAIMED = {
+ 'C19': ('the recogniser parse_number on every ASCII string up to the bound against a reference scanner written from the property: accepted => number shape with separators followed by multiples of three digits; value = sign x f64 of exactly the scanned digits; grouped/scientific flags; every ordinary well-formed number is accepted. parse_formatted_number against that kernel on the stripped text for percent, the three currency positions and plain numbers: value with the right sign (incl. -$ with an exponent), /100 for percent, and a format of the stated kind',
+         'outside: the numeric value of a digit string (f64::from_str: validity = its documented grammar, value uninterpreted), typed dates (chrono), white space, non-ASCII currency symbols/separators (the real fr/de group separators), what Model::set_user_input does with the result'),
  'C16': ('cut: to_string_moved on reference and range nodes with symbolic formula cell, target, cut area and paste offset - a reference to a cut cell points to where it went (same $ flags, #REF! off the grid), a range moves only if both corners are cut, everything else keeps its cell and gains the source sheet name when the formula changes sheet; ref_is_in_area = the rectangle test over the whole grid; copy: the A1 printer at the target cell shifts exactly the relative parts by the paste offset. Expected texts are built from $, number_to_column and the row number, not from the printer under test',
          'outside: the moved-formula printer for operators/functions/arrays (parenthesisation, separators), clipboard orchestration, CF ranges and defined names under cut, values; coordinates within 120 rows x 30 columns'),
  'C34': ('F4 rewrite kernel (next_state, cycle_endpoint, cycle_token_text): on every reference/range token text assembled from symbolic sheet prefix, $ markers, letters of either case and digits, one F4 equals the cycle of the property (A1->$A$1->A$1->$A1, column-only/row-only toggle, letters upper-cased, prefix byte-identical) and four F4 return the upper-cased original; next_state has period exactly four; on any ASCII text <=4 (<=6 thorough) only $ markers and letter case change',
@@ -43,7 +45,6 @@ NA = {
  'C11': 'not claimed: string-kernel panic-freedom harnesses (DESIGN 5) not built; measured cost of symbolic strings (60 s solver timeouts on digit-string round trips) made them unaffordable in the quick tier',
  'C17': 'sheet rename/duplicate rewrite every stored formula through parser and printer',
  'C18': 'display -> set_user_input round trip runs the number formatter (float->text) and the input interpreter end to end',
- 'C19': 'not claimed: recogniser-vs-grammar harness not built (symbolic strings of length 7 cost minutes per harness in this engine)',
  'C20': 'subject is decimal rendering of f64 (format!("{:.*e}"), ryu); float-to-decimal is not encodable and cannot be left uninterpreted because it is the property',
  'C21': 'not claimed: executing chrono from its own MIR (niche-packed NonZeroI32, transmutes, 64-bit mul/div by 86400) was not reached; CBMC did not finish the same round trip in 15 min',
  'C23': 'finite table facts read from language.bin via bitcode; nothing symbolic to decide, enumerating the table is not this technique',
